@@ -144,7 +144,7 @@ func Verif_C02_recover() {
 // At most n are inside at any instant; arrivals beyond n get 503 and do not
 // run; every admitted request gives its token back on return and on panic.
 func Verif_C02_maxconns() {
-	n := verifCase(verifParam("maxN") + 1) // 0 (unlimited), 1..maxN
+	n := verifChoose("n", verifParam("maxN")+1) // 0 (unlimited), 1..maxN
 	total := n + 2
 	if n == 0 {
 		total = 3
